@@ -151,7 +151,7 @@ func coGenBody(rng *rand.Rand, kind int, nExtra int) (typ uint16, body string) {
 			{"gid", coPick(rng, coIdVals)}, {"euid", coPick(rng, coIdVals)}, {"suid", "0"}, {"fsuid", "0"}, {"egid", coPick(rng, coIdVals)}, {"sgid", "0"}, {"fsgid", "0"},
 			{"tty", "pts0"}, {"ses", coPick(rng, coIdVals)}, {"comm", coPick(rng, []string{"cat", "python3", "sshd", "ip"})}, {"exe", coPick(rng, coPathVals)},
 			{"subj", coPick(rng, []string{"unconfined_u:unconfined_r:unconfined_t:s0-s0:c0.c1023", "system_u:system_r:init_t:s0", "u:r", "x"})},
-			{"key", coPick(rng, []string{"(null)", "mykey", "k1", coUpHex("a\x01b")})}}
+			{"key", coPick(rng, []string{"(null)", "mykey", "k1", coUpHex("a\x01b"), coUpHex("exec\x01exec\x0164bit"), coUpHex("k\x01k"), coUpHex("x\x01x\x01x\x01y\x01y")})}}
 		kvs = coMaybeDrop(rng, kvs, 0.04)
 	case coKCwd:
 		typ = tCWD
